@@ -23,11 +23,19 @@ for _f in sorted(glob.glob(os.path.join(os.path.dirname(os.path.abspath(__file__
     ENGINES.update(getattr(_m, "ENGINES", {}))
     for _k, _v in getattr(_m, "PROPS", {}).items():
         if _k in PROPS:
-            # several engine files may contribute to one property: merge engine/checker lists
-            for _fld in ("engines", "checkers", "assumptions", "coq_scan"):
-                PROPS[_k][_fld] = PROPS[_k].get(_fld, []) + [x for x in _v.get(_fld, []) if x not in PROPS[_k].get(_fld, [])]
+            # several engine files may contribute to one property: lists are united, dicts merged,
+            # scalar fields are taken from whichever file defines them first
+            for _fld, _val in _v.items():
+                if isinstance(_val, list):
+                    PROPS[_k][_fld] = PROPS[_k].get(_fld, []) + [x for x in _val if x not in PROPS[_k].get(_fld, [])]
+                elif isinstance(_val, dict) and isinstance(PROPS[_k].get(_fld, {}), dict) and _fld != "manifest":
+                    _d = dict(PROPS[_k].get(_fld, {}))
+                    _d.update(_val)
+                    PROPS[_k][_fld] = _d
+                elif _fld not in PROPS[_k]:
+                    PROPS[_k][_fld] = _val
         else:
-            PROPS[_k] = _v
+            PROPS[_k] = dict(_v)
 
 
 def classify(engine, kind):
